@@ -59,6 +59,17 @@ func collect() {
 	methodSource("p/p2pke", "Channel", "getOrInit", "src_ch_getorinit")
 	methodSource("p/p2pke", "Session", "readHandshake", "src_sess_readhandshake")
 
+	// C11 / C12 / C13: the hub and queue methods the Hub transition system was written against
+	methodSource("s/swarmutil", "TellHub", "Receive", "src_hub_tell_receive")
+	methodSource("s/swarmutil", "TellHub", "Deliver", "src_hub_tell_deliver")
+	methodSource("s/swarmutil", "TellHub", "CloseWithError", "src_hub_tell_close")
+	methodSource("s/swarmutil", "AskHub", "ServeAsk", "src_hub_ask_serve")
+	methodSource("s/swarmutil", "AskHub", "Deliver", "src_hub_ask_deliver")
+	methodSource("s/swarmutil", "AskHub", "CloseWithError", "src_hub_ask_close")
+	methodSource("s/swarmutil", "Queue", "Receive", "src_queue_receive")
+	methodSource("s/swarmutil", "Queue", "Deliver", "src_queue_deliver")
+	methodSource("s/swarmutil", "Queue", "Close", "src_queue_close")
+
 	// C02 / C03 / C06: P2PKE constants and the readiness guards as truth tables
 	constInt("p/p2pke", "MaxNonce", "ke_max_nonce")
 	constInt("p/p2pke", "noncePostHandshake", "ke_nonce_post_handshake")
